@@ -200,6 +200,7 @@ def make_leaf(M, mk, kind, n, tag="a"):
         Q = orth(mk, p + "_q", n)
         w = mk.arr(p + "_w", n, "pos" if kind == "eig_pd" else "nonzero")
         A = Q @ np.diag(w) @ Q.T
+        _reg(mk, A, w, Q)
         if kind == "dense_sym":
             return M.DenseSymmetricMatrix(A), A
         if kind == "dense_sym_eig":
@@ -224,6 +225,7 @@ def make_leaf(M, mk, kind, n, tag="a"):
             Q = orth(mk, p + "_q", n)
             lam = mk.arr(p + "_lam", n, "nonzero")
             S = Q @ np.diag(lam) @ Q.T
+            _reg(mk, S, lam, Q)
         obj = M.SoftAbsRegularizedPositiveDefiniteMatrix(S, a)
         if mk.symbolic:
             sa = np.array([x / (x * a).tanh() for x in lam], dtype=object)
@@ -311,3 +313,9 @@ def _lu(M, A, mk):
     """LU factorisation handed to constructors that accept a precomputed one: produced by
     the same routine mici itself would call (stub for symbolic input, LAPACK for floats)."""
     return M.sla.lu_factor(A, check_finite=False) if mk.symbolic else __import__("scipy.linalg").linalg.lu_factor(A)
+
+
+def _reg(mk, A, w, Q):
+    if mk.symbolic and A.shape[0] == 2:
+        import symx.stubs as stubs
+        stubs.register_eigh(A, w, Q, mk.assume)
